@@ -261,6 +261,27 @@ def _fix_sqlalchemy():
         pass
 
 
+def _fix_ipaddress():
+    '''ipaddress.IPv6Address accepts scope ids ("fe80::1%eth0", any text after %) since Python 3.9.  wpull relies on
+    it to reject such host text, as it did on the interpreters the code targets; restore that.'''
+    import ipaddress
+    orig = ipaddress.IPv6Address
+    if getattr(orig, '_compat', False):
+        return
+
+    class IPv6Address(orig):
+        _compat = True
+        __slots__ = ()
+
+        def __init__(self, address):
+            if isinstance(address, str) and '%' in address:
+                raise ipaddress.AddressValueError('Scope id not supported: {!r}'.format(address))
+            super().__init__(address)
+    IPv6Address.__name__ = 'IPv6Address'
+    IPv6Address.__qualname__ = 'IPv6Address'
+    ipaddress.IPv6Address = IPv6Address
+
+
 # --------------------------------------------------------------------------- loader
 class _WpullLoader(importlib.abc.SourceLoader):
     def __init__(self, fullname, path):
@@ -324,6 +345,7 @@ def install():
     _fix_imp()
     _fix_html5lib()
     _fix_sqlalchemy()
+    _fix_ipaddress()
     sys.meta_path.insert(0, _WpullFinder())
     for name in [n for n in sys.modules if n == 'wpull' or n.startswith('wpull.')]:
         del sys.modules[name]
